@@ -31,7 +31,7 @@ NASTY = ['>>> x = (', '>>> "', ">>> '''", '... )', '>>> x = 1  # xdoctest: +REQU
          '>>> \x00', '    >>> def f(:', 'w', '', '>>> return 1', '>>> x = 1;; y', '>>> 1 +', '... ', '>>> @', '>>> lambda: (yield)',
          '>>>', '... x = (1,']
 BOUNDS = {'quick': 'parse_contains: 2 symbolic lines x <=5 chars, every oracle call may raise one of %d exception types; collection: 3 docstrings; real_malformed: 2 lines from %d fragments' % (len(RAISES), len(NASTY)),
-          'thorough': 'parse_contains: 3 lines; collection: 4 docstrings; real_malformed: 3 lines'}
+          'thorough': 'parse_contains: 3 lines; collection: 4 docstrings; real_malformed: 2 lines (as quick)'}
 OUTSIDE = 'that CPython\'s tokenizer / ast raise only these exception types (their contract is the stub); BaseException (KeyboardInterrupt); warnings turned into errors by the caller\'s filters'
 ASSUMPTIONS = c13.ASSUMPTIONS[:2]
 
@@ -42,8 +42,8 @@ def jobs(tier):
              'query_timeout_s': 120 if q else 600, 'job_timeout_s': 900 if q else 3000, 'bounds': BOUNDS[tier]},
             {'ob': 'collection_goes_on', 'harness': 'coll', 'm': 3 if q else 4, 'splits': [3, 6, 9], 'query_timeout_s': 60,
              'bounds': '%d docstrings, each fine / empty / malformed in one of 5 ways, 3 styles' % (3 if q else 4)},
-            {'ob': 'real_malformed', 'harness': 'real', 'k': 2 if q else 3, 'splits': [2, 4, 6], 'query_timeout_s': 60,
-             'bounds': '%d lines from %d nasty fragments, real tokenizer' % (2 if q else 3, len(NASTY))}]
+            {'ob': 'real_malformed', 'harness': 'real', 'k': 2, 'splits': [2, 4, 6], 'query_timeout_s': 60,
+             'bounds': '%d lines from %d nasty fragments in 4 docstring forms, real tokenizer' % (2, len(NASTY))}]
 
 
 def make_exc(name):
